@@ -79,6 +79,9 @@ fixed(['C19'], '749abce', 'DataArray::reMax(newMax < size()) left max() < size()
 fixed(['C19'], 'aa5f76f', 'SVectorBase = SSVectorBase (and DSVector(SSVector), DSVector = SSVector) always empty')
 fixed(['C19'], 'fb8c172', 'SSVectorBase::assign2productShort wrote idx[dim] once the intermediate result was dense')
 
+fixed(['C07', 'C20', 'C03'], '6d45340', 'an exact solve after a floating-point solve worked on the persistently scaled real LP and dropped its scaler: the LP stayed flagged scaled with lp_scaler == nullptr, lhsReal()/getRowVectorReal() dereferenced null (found by the exact-solve operation added to the C07 histories)')
+fixed(['C05'], '6532812', 'unscaled getBasisInverseColReal/RowReal/TimesVecReal lost entries that are below the zero tolerance only in the scaled space (row scale exponent -67: B = I gave B^-1 e_1 = 0)')
+
 # ------------------------------------------------------------------ open findings
 UND = r'(ABORT_CYCLING|RUNNING|UNKNOWN|ERROR|SINGULAR)'
 # --- simplex core
